@@ -5,7 +5,6 @@ import (
 	"math"
 	"math/big"
 	"sort"
-	"strings"
 	"testing"
 
 	"pgregory.net/rapid"
@@ -169,7 +168,7 @@ var scaleRule = "scaler laws over (val,min,max) in int64^3 x {linear,log2,log10}
 
 var scaleSpec = pbt.Spec[ScaleCase]{
 	Property: "C14", Name: "scaler-laws", Rule: "random: " + scaleRule,
-	Budget: pbt.Budget{Quick: 40000, Thorough: 1500000},
+	Budget: pbt.Budget{Quick: 80000, Thorough: 1500000},
 	Gen:    genScale, Check: checkScale, Classify: classifyScale,
 }
 
@@ -259,5 +258,3 @@ func TestScalerLawsExhaustive(t *testing.T) {
 		}
 	})
 }
-
-var _ = strings.Repeat
